@@ -107,7 +107,12 @@ def run(ctx):
                                  cmp=_cmp_exact(st, res, orig, dict(zip(ids, f['parents'])))))
             elif kind == 'strahler':
                 sel_kind = int(rng.integers(4))
-                if sel_kind == 0:
+                if f['shape'] == 'binary' and rng.random() < 0.5:
+                    sel_kind = 4
+                if sel_kind == 4:      # the tips AND a higher order, not the orders in between: kept nodes lose their parents
+                    l = [[1, 3], [3, 1], [1, 4], [1, 2, 4], [1, 3, 4], [2, 4]][int(rng.integers(6))]
+                    arg, sel = l, 'SList %s' % term(l)
+                elif sel_kind == 0:
                     k = int(rng.integers(-4, 5))
                     arg, sel = k, 'SInt %s' % term(k)
                 elif sel_kind == 1:
